@@ -268,3 +268,32 @@ CHECKS["C09"] = dict(
     assumptions=MT_ASSUME + ["the forked child's post and its reaping are one atomic scheduler step; a burst is one atomic step"],
     deadline=dict(quick=150, thorough=900),
 )
+
+WORK_RULE = ("2 poll methods (epoll-timerfd: one-shot kick; ppoll: raw-event kick) x max_threads 1-2 x 9 submission programs (bursts of 1-3, "
+             "submit from a completion, continuation from a work function, second submission at virtual t=10 s colliding with the idle "
+             "timeout, second submission at t=25 s after the workers died, continuation plus owner submission) x 5 release points "
+             "(iv_work_pool_put before any submit, after the setup submits, from the first completion, from a timer at t=10 s, at the end; "
+             "the pool struct is freed at once) x every schedule within the preemption bound")
+CHECKS["C12"] = dict(
+    quick=[R("h_work", "bound=1", sched=True),
+           R("h_work", "bound=2 methods=0 maxthreads=2 progs=1,4,5,7,8 puts=0,3", sched=True)],
+    thorough=[R("h_work", "bound=2", sched=True),
+              R("h_work", "bound=3 methods=0 maxthreads=2 progs=1,5,7 puts=0", sched=True)],
+    rule=WORK_RULE,
+    explanation="per item: work function exactly once in a thread other than the owner, inside that thread's start/stop bracket, never more "
+                "than max_threads running at once; completion exactly once in the owner after the work function returned; when all "
+                "threads are blocked for good every submitted item must have completed (a lost kick shows up exactly there)",
+    assumptions=MT_ASSUME,
+    deadline=dict(quick=200, thorough=1200),
+)
+CHECKS["C13"] = dict(
+    quick=[R("h_work", "bound=1", sched=True),
+           R("h_work", "bound=2 methods=2 maxthreads=1,2 progs=1,2,5 puts=1-4", sched=True)],
+    thorough=[R("h_work", "bound=2", sched=True)],
+    rule=WORK_RULE,
+    explanation="after the release: items already submitted complete, every worker calls thread_stop once after thread_start, every created "
+                "thread finishes and is joined by the library, iv_main returns only then and does return; the pool struct is poisoned and "
+                "freed right after iv_work_pool_put (ASan); allocation / descriptor ledger balanced after iv_deinit",
+    assumptions=MT_ASSUME + ["continuations submitted concurrently with or after the release are the application's race and are not generated"],
+    deadline=dict(quick=200, thorough=1200),
+)
